@@ -2,7 +2,7 @@
 """keep_seed.py <PID> <seed-id> <caught_initially: yes|no> <caught_now_by> <note>  -- copy a confirmed seeded change into /verif/seeded/<seed-id>/"""
 import json, os, shutil, sys
 pid, sid, initially, now_by, note = sys.argv[1:6]
-src = "/tmp/seed_out/%s" % pid
+src = os.path.join(os.environ.get("SEED_OUT", "/tmp/seed_out"), pid)
 dst = "/verif/seeded/%s" % sid
 os.makedirs(dst, exist_ok=True)
 shutil.copy(os.path.join(src, "patch.diff"), dst)
